@@ -134,6 +134,17 @@ impl IndexRead {
         Ok(hunks)
     }
 
+    /// Like [IndexRead::iter_available_hunks], but returns an error rather than panicking
+    /// if the index directory can't be listed.
+    pub async fn try_iter_available_hunks(self) -> Result<IndexHunkIter> {
+        let hunks = self.hunks_available().await?;
+        Ok(IndexHunkIter {
+            hunks: hunks.into_iter(),
+            index: self,
+            after: None,
+        })
+    }
+
     /// Make an iterator that returns hunks of entries from this index,
     /// skipping any that are not present.
     pub async fn iter_available_hunks(self) -> IndexHunkIter {
